@@ -2695,7 +2695,8 @@ func TestVerifC08(t *testing.T) {
 		}
 		h.End()
 	}
-	h.Close("one history of 6-70 events (node-metric add/update/delete, Reserve/Unreserve, informer pod add/update/delete with spec/priority/condition/node/phase changes) " +
+	h.Close("one history of 6-70 events (node-metric add/update/delete through the registered handler funcs with the object in force as `old`: spec-only / status-only / both; " +
+		"Reserve/Unreserve, informer pod add/update/delete with spec/priority/condition/node/phase/status-only changes, 1/3 of the pods with container-status resources) " +
 		"on 1-3 nodes and 2-6 pods, times on a 10 s grid around the report interval and estimation deadlines, interleaved with Get and Filter queries " +
 		"(args/node-annotation threshold profiles, prod/aggregated, raw allocatable, expiry switches, allocatable steered to the rounding boundary); " +
 		"non-trivial = >=3 observations of a node that has a metric in force and assigned pods; distinct by op lines")
